@@ -388,3 +388,23 @@ Proof.
   rewrite T, A, N2Z.id in Hm. inversion Hm; subst m.
   apply (model_hop_passes_checker_l t a n o).
 Qed.
+
+(* ---- kind 13: a hop to a receiver with an explicit compression_algorithms list ---- *)
+Theorem model_cfg_hop_passes_checker_l : forall algs comp t n o,
+  decide (cfg_form algs comp (tz_of t) (Z.of_N n) o (hop_obs (hop_cfg algs comp t NoAuth n o))) = true.
+Proof.
+  intros algs comp t n o.
+  assert (O : offered algs comp = server_accepts algs comp) by reflexivity.
+  destruct t.
+  - change (hop_cfg algs comp Grpc NoAuth n o) with (hop Grpc NoAuth n o).
+    destruct (hop_obs_shape (hop Grpc NoAuth n o)) as (a1 & a2 & a3 & a4 & a5 & a6 & S). unfold cfg_form. rewrite S.
+    cbn [tz_of Z.eqb orb]. rewrite <- S. apply (model_hop_passes_checker_l Grpc NoAuth n o).
+  - unfold hop_cfg. destruct (server_accepts algs comp) eqn:A.
+    + destruct (hop_obs_shape (hop HttpPb NoAuth n o)) as (a1 & a2 & a3 & a4 & a5 & a6 & S). unfold cfg_form. change (offered algs comp) with (server_accepts algs comp). rewrite S, A.
+      cbn [tz_of Z.eqb orb]. rewrite <- S. apply (model_hop_passes_checker_l HttpPb NoAuth n o).
+    + unfold cfg_form, hop_obs. change (offered algs comp) with (server_accepts algs comp). cbn. rewrite A. reflexivity.
+  - unfold hop_cfg. destruct (server_accepts algs comp) eqn:A.
+    + destruct (hop_obs_shape (hop HttpJson NoAuth n o)) as (a1 & a2 & a3 & a4 & a5 & a6 & S). unfold cfg_form. change (offered algs comp) with (server_accepts algs comp). rewrite S, A.
+      cbn [tz_of Z.eqb orb]. rewrite <- S. apply (model_hop_passes_checker_l HttpJson NoAuth n o).
+    + unfold cfg_form, hop_obs. change (offered algs comp) with (server_accepts algs comp). cbn. rewrite A. reflexivity.
+Qed.
